@@ -158,6 +158,14 @@ func (sr *srcRenderer) vexpr(v any) string {
 		return "inc1(" + str(m["n"]) + ")"
 	case "idg":
 		return "idg(" + str(m["n"]) + ")"
+	case "idi":
+		return "idi(" + str(m["n"]) + ")"
+	case "unn":
+		return "unn(" + str(m["n"]) + ")"
+	case "perr":
+		return "rt.B2I(ge(" + str(m["n"]) + ") == nil)"
+	case "vari":
+		return "gv(" + str(m["n"]) + ", " + str(m["n"]) + ")"
 	case "ln":
 		return `ln("abc")`
 	case "cnv":
@@ -573,6 +581,18 @@ func optProlog(prog []any, fn string) string {
 	if has("ln") {
 		b.WriteString("\tln := func(x string) int { return len(x) }\n")
 	}
+	if has("idi") {
+		b.WriteString("\tidi := func(x int) int { return ident(x) }\n")
+	}
+	if has("unn") {
+		b.WriteString("\tunn := func(int) int { return seven() }\n")
+	}
+	if has("perr") {
+		b.WriteString("\tge := func(x int) error { return mkErr(x) }\n")
+	}
+	if has("vari") {
+		b.WriteString("\tgv := func(xs ...int) int { return count(xs) }\n")
+	}
 	if has("cnv") {
 		b.WriteString("\tcnv := func(x int64) int { return int(x) }\n")
 	}
@@ -586,6 +606,13 @@ type box struct{ v int }
 func (b *box) Get() int { return b.v }
 func pkgInc(x int) int  { return x + 1 }
 func pscaleInit(x int) int { return x + 1000 }
+func seven() int           { return 7 }
+
+type myErr struct{}
+
+func (*myErr) Error() string { return "e" }
+func mkErr(x int) *myErr     { return nil }
+func count(xs []int) int     { return len(xs) }
 func ident[T any](x T) T { return x }
 `
 
